@@ -79,6 +79,29 @@ pub mod fixedbitset {
                 final(self).len_spec() == if bits > old(self).len_spec() { bits as nat } else { old(self).len_spec() }
         { unimplemented!() }
         #[verifier::external_body]
+        pub fn with_capacity(bits: usize) -> (r: Self) ensures r.len_spec() == bits, r.bits() == Set::<nat>::empty() { unimplemented!() }
+        #[verifier::external_body]
+        pub fn contains(&self, bit: usize) -> (r: bool) ensures r == self.bits().contains(bit as nat) { unimplemented!() }
+        #[verifier::external_body]
+        pub fn is_clear(&self) -> (r: bool) ensures r == (self.bits() == Set::<nat>::empty()) { unimplemented!() }
+        #[verifier::external_body]
+        pub fn insert(&mut self, bit: usize)
+            requires bit < old(self).len_spec()
+            ensures final(self).len_spec() == old(self).len_spec(), final(self).bits() == old(self).bits().insert(bit as nat)
+        { unimplemented!() }
+        #[verifier::external_body]
+        pub fn put(&mut self, bit: usize) -> (r: bool)
+            requires bit < old(self).len_spec()
+            ensures final(self).len_spec() == old(self).len_spec(), final(self).bits() == old(self).bits().insert(bit as nat),
+                r == old(self).bits().contains(bit as nat)
+        { unimplemented!() }
+        #[verifier::external_body]
+        pub fn toggle(&mut self, bit: usize)
+            requires bit < old(self).len_spec()
+            ensures final(self).len_spec() == old(self).len_spec(),
+                final(self).bits() == if old(self).bits().contains(bit as nat) { old(self).bits().remove(bit as nat) } else { old(self).bits().insert(bit as nat) }
+        { unimplemented!() }
+        #[verifier::external_body]
         pub fn set(&mut self, bit: usize, enabled: bool)
             requires bit < old(self).len_spec()
             ensures final(self).len_spec() == old(self).len_spec(),
